@@ -28,3 +28,31 @@ package mqtt
 //@ ensures[C09] err == nil ==> r[0][1+vlen(pubrem(len(topic), len(message), packetID))] == len(topic) / 256 && r[0][2+vlen(pubrem(len(topic), len(message), packetID))] == len(topic) % 256
 //@ ensures[C09] err == nil ==> seq_eq(arr(r[0]), off(r[0]) + 3 + vlen(pubrem(len(topic), len(message), packetID)), arr(topic), off(topic), len(topic))
 //@ ensures[C09] err == nil && packetID != 0 ==> r[0][len(r[0])-2] == (packetID / 256) % 256 && r[0][len(r[0])-1] == packetID % 256
+
+//@ func mqtt.writeTo -> err
+//@ requires conn != nil
+//@ loop 1: invariant ref(p) == ref(old(p)) && len(p) <= len(old(p)) && off(p) + len(p) == off(old(p)) + len(old(p))
+//@ loop 1: invariant wire_len(conn) == old(wire_len(conn)) + (len(old(p)) - len(p))
+//@ loop 1: invariant forall(k, 0, old(wire_len(conn)), wire(conn)[k] == old(wire(conn))[k])
+//@ loop 1: invariant forall(k, 0, len(old(p)) - len(p), wire(conn)[old(wire_len(conn)) + k] == old(p)[k])
+//@ ensures[C08] wire_len(conn) >= old(wire_len(conn)) && wire_len(conn) - old(wire_len(conn)) <= len(p)
+//@ ensures[C08] forall(k, 0, old(wire_len(conn)), wire(conn)[k] == old(wire(conn))[k])
+//@ ensures[C08] forall(k, 0, wire_len(conn) - old(wire_len(conn)), wire(conn)[old(wire_len(conn)) + k] == p[k])
+//@ ensures[C08,C14] err == nil ==> wire_len(conn) == old(wire_len(conn)) + len(p)
+//@ ensures[C08] forall(k, 0, len(p), p[k] == old(p[k]))
+
+//@ func mqtt.(*Client).peekPacket -> head, err
+//@ requires c.bufr != nil && c.readConn != nil
+//@ loop 1: unroll 5
+//@ loop 2: let P = rx_pos(c.bufr)
+//@ loop 2: invariant rx_pos(c.bufr) == P
+//@ ensures[C13] (err == nil || hastype(err, *BigMessage)) ==> rx_pos(c.bufr) - old(rx_pos(c.bufr)) >= 2 && rx_pos(c.bufr) - old(rx_pos(c.bufr)) <= 5
+//@ ensures[C13] err == nil ==> len(c.peek) <= 268435455
+//@ ensures[C13] hastype(err, *BigMessage) ==> unbox(err, *BigMessage).Size <= 268435455
+//@ ensures[C06] err == nil ==> head == rx_stream(c.bufr)[old(rx_pos(c.bufr))]
+//@ ensures[C06] err == nil ==> vwf(rx_stream(c.bufr), old(rx_pos(c.bufr)) + 1, rx_pos(c.bufr) - old(rx_pos(c.bufr)) - 1)
+//@ ensures[C06] err == nil ==> len(c.peek) == vdec(rx_stream(c.bufr), old(rx_pos(c.bufr)) + 1, rx_pos(c.bufr) - old(rx_pos(c.bufr)) - 1)
+//@ ensures[C06] err == nil ==> forall(k, 0, len(c.peek), c.peek[k] == rx_stream(c.bufr)[rx_pos(c.bufr) + k])
+//@ ensures[C06] hastype(err, *BigMessage) ==> head / 16 == 3 && unbox(err, *BigMessage).Client == c && unbox(err, *BigMessage).Size > rx_size(c.bufr)
+//@ ensures[C06] hastype(err, *BigMessage) ==> unbox(err, *BigMessage).Size == vdec(rx_stream(c.bufr), old(rx_pos(c.bufr)) + 1, rx_pos(c.bufr) - old(rx_pos(c.bufr)) - 1)
+//@ ensures[C06] hastype(err, *BigMessage) ==> len(c.peek) == rx_size(c.bufr) && forall(k, 0, len(c.peek), c.peek[k] == rx_stream(c.bufr)[rx_pos(c.bufr) + k])
